@@ -307,8 +307,18 @@ func c04Hostile() []hcase {
 	}
 	big := "/sparse9g.bin"
 	for _, tgt := range []string{"/file.bin", big, "/***DVD***/dir", "/PS3ISO/enc.iso", "/k3/enc3k3y.iso", "/dir"} {
-		for _, off := range []uint64{0, 1, 1<<31 - 1, 1 << 32, 1<<63 - 1, 1 << 63, 1<<64 - 1, 9 << 30} {
-			for _, n := range []uint32{0, 1, 1<<31 - 1, 1 << 31, 1<<32 - 1} {
+		offsets := []uint64{0, 1, 1<<31 - 1, 1 << 32, 1<<63 - 1, 1 << 63, 1<<64 - 1, 9 << 30}
+		for _, o := range FarOffsets() {
+			offsets = append(offsets, uint64(o))
+		}
+		for oi, off := range offsets {
+			for _, n := range []uint32{0, 1, 1<<31 - 1, 1 << 31, 1<<32 - 1, 100, 2048, 70000} {
+				if oi < 8 && n >= 100 && n <= 70000 {
+					continue
+				}
+				if oi >= 8 && (n == 0 || n >= 1<<31-1) {
+					continue
+				}
 				if n >= 1<<31-1 && tgt != big && tgt != "/file.bin" {
 					continue
 				}
